@@ -13,7 +13,9 @@ Transliterated (file:line of /repo/src/MIP_Problem.cc, current tree):
 * `parseConstraints`            — `parse_constraints` (:497)
 * `mergeSplitVariable`          — `merge_split_variable` (:428)
 * `ppcSetup`, `ppcFinish`, `processPendingConstraints` — `process_pending_constraints` (:689);
-  `ppcSetup` is the part before the first phase (:689–:1000), `ppcFinish` the part after it
+  `ppcSetup` (= `ppcRecompute`, `parseConstraints`, `ppcBuild`: `ppcMerge`, `ppcMapping`, `ppcFill`: `insertStep`,
+  `ppcNormalizeSigns`, `ppcArtificials`, `reexpressCost`, `ppcTrivial`) is the part before the first phase
+  (:689–:1000), `ppcFinish` the part after it
 * `steepestEdgeExact`           — `steepest_edge_exact_entering_index` (:1177, `PPL_USE_SPARSE_MATRIX` variant)
 * `textbookEntering` (Tableau)  — `textbook_entering_index` (:1376)
 * `computeSimplexWith`          — the loop of `compute_simplex_using_exact_pricing` (:1672) and, with the
@@ -410,83 +412,114 @@ def insertStep (numCols : Nat) (mapping : List (Nat × Nat)) (pend : List ICon) 
       if k != j && bj != 0 && row.get bj != 0 then linearCombine row (st.T.getD j []) bj else row) row
     { T := st.T.set k row, base := base, k := k, slackIndex := slackIndex, worked := worked }
 
+/-- :707–:715 `last_generator` is recomputed from the tableau when it encodes all the dimensions;
+    the flag says whether it may be trusted as the basic solution -/
+def ppcRecompute (s0 : LPState) : LPState × Bool :=
+  if s0.internal_space_dim > 0 then
+    if s0.internal_space_dim == s0.external_space_dim then (computeGenerator s0, true) else (s0, false)
+  else (s0, true)
+
+/-- :734–:745 merge back the re-mergeable variables (from the last one down); the rows made unfeasible -/
+def ppcMerge (s : LPState) (isRemerge : List Bool) : LPState × List Nat :=
+  revFold s.internal_space_dim (fun i (acc : LPState × List Nat) =>
+    if isRemerge.getD i false then
+      let (s', r) := mergeSplitVariable acc.1 i
+      (s', match r with | some r => acc.2 ++ [r] | none => acc.2)
+    else acc) (s, [])
+
+/-- :763–:784 mapping of the new problem variables: (mapping, j, additional_problem_vars) -/
+def ppcMapping (s : LPState) (isNonneg : List Bool) (firstFree : Nat) : List (Nat × Nat) × Nat × Nat :=
+  if s.external_space_dim > s.internal_space_dim then
+    fwdFold 0 (s.external_space_dim - s.internal_space_dim)
+      (fun i (acc : List (Nat × Nat) × Nat × Nat) =>
+        let positive := firstFree + acc.2.1
+        if isNonneg.getD (s.internal_space_dim + i) false then
+          (acc.1 ++ [(positive, 0)], acc.2.1 + 1, acc.2.2 + 1)
+        else (acc.1 ++ [(positive, positive + 1)], acc.2.1 + 2, acc.2.2 + 2))
+      (s.mapping, 0, 0)
+  else (s.mapping, 0, 0)
+
+/-- :906–:915 all inhomogeneous terms non-positive -/
+def ppcNormalizeSigns (T : List Row) : List Row :=
+  T.map fun r => if r.get 0 > 0 then r.map (- ·) else r
+
+/-- :918–:949 the artificial variables: first the rows made unfeasible by re-merging, then the new rows
+    that are not worked out; (tableau, cost, base, end_artificials) -/
+def ppcArtificials (unf : List Nat) (oldRows numRows : Nat) (worked : List Bool)
+    (T : List Row) (cost : Row) (base : List Nat) (artIndex : Nat) : List Row × Row × List Nat × Nat :=
+  let acc := unf.foldl (fun (acc : List Row × Row × List Nat × Nat) r =>
+    let (T, cost, base, ai) := acc
+    (T.set r ((T.getD r []).set ai 1), cost.set ai (-1), base.set r ai, ai + 1)) (T, cost, base, artIndex)
+  fwdFold oldRows (numRows - oldRows)
+    (fun i (acc : List Row × Row × List Nat × Nat) =>
+      let (T, cost, base, ai) := acc
+      if worked.getD i false then acc
+      else (T.set i ((T.getD i []).set ai 1), cost.set ai (-1), base.set i ai, ai + 1)) acc
+
+/-- :959–:969 and :1956–:1966 the cost row in terms of the non-basic variables -/
+def reexpressCost (T : List Row) (base : List Nat) (cost : Row) : Row :=
+  revFold T.length (fun i (cost : Row) =>
+    let bi := base.getD i 0
+    if cost.get bi != 0 then linearCombine cost (T.getD i []) bi else cost) cost
+
+/-- :972–:999 the zero-dimensional and the no-row cases -/
+def ppcTrivial (s : LPState) (beginA endA : Nat) : Setup :=
+  if s.external_space_dim == 0 then
+    .done { s with status := .OPTIMIZED, last_generator := ⟨[], 1⟩ }
+  else if s.tableau.length == 0 then
+    if isUnboundedObjFunction s.obj s.mapping s.maximize then
+      .done { s with status := .UNBOUNDED, last_generator := ⟨zeros s.external_space_dim, 1⟩ }
+    else .done { s with status := .OPTIMIZED, last_generator := ⟨zeros s.external_space_dim, 1⟩ }
+  else .phase1 s beginA endA
+
+/-- :758–:1000 resize the tableau, insert the constraints, normalise the signs, add the artificial
+    variables and the first-phase cost row (`s`: the state after re-merging, `unf`: the rows it made
+    unfeasible, `isSat`: the "already satisfied" flags after their two resets, `mapping`/`addVars`: the
+    extended mapping and the number of new problem-variable columns) -/
+def ppcFill (s : LPState) (unf : List Nat) (p : Parsed) (isSat : List Bool) (mapping : List (Nat × Nat))
+    (addVars : Nat) : Setup :=
+  let np := s.input_cs.length - s.first_pending
+  let pend := s.input_cs.drop s.first_pending
+  let oldRows := s.tableau.length
+  let oldCols := s.numCols
+  -- :803–:822
+  let numSat := isSat.count true
+  let addArt := (p.rows - numSat) + unf.length
+  let addCols := addVars + p.slacks + addArt
+  let numRows := oldRows + p.rows
+  let numCols := oldCols + addCols
+  let T := (s.tableau ++ List.replicate p.rows []).map fun (r : Row) => r ++ zeros (numCols - r.length)
+  let base := s.base ++ List.replicate p.rows 0
+  let slackIndex := numCols - addArt - 1
+  let beginA := if addArt > 0 then slackIndex else 0
+  -- :852–:901 insertion of the constraints
+  let ins := revFold np (insertStep numCols mapping pend p.isTab isSat)
+    { T := T, base := base, k := numRows, slackIndex := slackIndex, worked := List.replicate numRows false }
+  let art :=
+    ppcArtificials unf oldRows numRows ins.worked (ppcNormalizeSigns ins.T) (zeros numCols) ins.base slackIndex
+  -- :955–:956 the sign column, :959–:969 the cost row in terms of the non-basic variables
+  let cost := reexpressCost art.1 art.2.2.1 (art.2.1.set (numCols - 1) 1)
+  ppcTrivial
+    { s with tableau := art.1, numCols := numCols, working_cost := cost, base := art.2.2.1, mapping := mapping }
+    beginA art.2.2.2
+
+/-- :727–:757 after `parse_constraints` succeeded: the two resets of the "already satisfied" flags,
+    re-merging, the mapping of the new variables -/
+def ppcBuild (s : LPState) (lgBasic : Bool) (p : Parsed) : Setup :=
+  let np := s.input_cs.length - s.first_pending
+  let isSat := if !lgBasic then List.replicate np false else p.isSat
+  let mg := ppcMerge s p.isRemerge
+  -- :753–:756
+  let isSat := if !mg.2.isEmpty then List.replicate np false else isSat
+  let mp := ppcMapping mg.1 p.isNonneg (mg.1.numCols - 1)
+  ppcFill mg.1 mg.2 p isSat mp.1 mp.2.2
+
 /-- `process_pending_constraints` up to the first phase (:689–:1000) -/
 def ppcSetup (s0 : LPState) : Setup :=
-  -- :707–:715
-  let (s, lgBasic) :=
-    if s0.internal_space_dim > 0 then
-      if s0.internal_space_dim == s0.external_space_dim then (computeGenerator s0, true) else (s0, false)
-    else (s0, true)
+  let (s, lgBasic) := ppcRecompute s0
   match parseConstraints s with
   | none => .done { s with status := .UNSATISFIABLE }
-  | some p =>
-    let np := s.input_cs.length - s.first_pending
-    let pend := s.input_cs.drop s.first_pending
-    let isSat := if !lgBasic then List.replicate np false else p.isSat
-    -- :734–:745 merge back
-    let (s, unf) := revFold s.internal_space_dim (fun i (acc : LPState × List Nat) =>
-      if p.isRemerge.getD i false then
-        let (s', r) := mergeSplitVariable acc.1 i
-        (s', match r with | some r => acc.2 ++ [r] | none => acc.2)
-      else acc) (s, [])
-    -- :753–:756
-    let isSat := if !unf.isEmpty then List.replicate np false else isSat
-    let oldRows := s.tableau.length
-    let oldCols := s.numCols
-    let firstFree := oldCols - 1
-    -- :763–:784 mapping of the new problem variables
-    let (mapping, _, addVars) :=
-      if s.external_space_dim > s.internal_space_dim then
-        fwdFold 0 (s.external_space_dim - s.internal_space_dim)
-          (fun i (acc : List (Nat × Nat) × Nat × Nat) =>
-            let positive := firstFree + acc.2.1
-            if p.isNonneg.getD (s.internal_space_dim + i) false then
-              (acc.1 ++ [(positive, 0)], acc.2.1 + 1, acc.2.2 + 1)
-            else (acc.1 ++ [(positive, positive + 1)], acc.2.1 + 2, acc.2.2 + 2))
-          (s.mapping, 0, 0)
-      else (s.mapping, 0, 0)
-    -- :803–:822
-    let numSat := isSat.count true
-    let addArt := (p.rows - numSat) + unf.length
-    let addCols := addVars + p.slacks + addArt
-    let numRows := oldRows + p.rows
-    let numCols := oldCols + addCols
-    let T := (s.tableau ++ List.replicate p.rows []).map fun (r : Row) => r ++ zeros (numCols - r.length)
-    let base := s.base ++ List.replicate p.rows 0
-    let slackIndex := numCols - addArt - 1
-    let artIndex := slackIndex
-    let beginA := if addArt > 0 then artIndex else 0
-    -- :852–:901 insertion of the constraints
-    let ins := revFold np (insertStep numCols mapping pend p.isTab isSat)
-      { T := T, base := base, k := numRows, slackIndex := slackIndex, worked := List.replicate numRows false }
-    -- :906–:915 inhomogeneous terms non-positive
-    let T := ins.T.map fun r => if r.get 0 > 0 then r.map (- ·) else r
-    -- :918–:949 artificial variables
-    let cost0 := zeros numCols
-    let (T, cost, base, artIndex) := unf.foldl (fun (acc : List Row × Row × List Nat × Nat) r =>
-      let (T, cost, base, ai) := acc
-      (T.set r ((T.getD r []).set ai 1), cost.set ai (-1), base.set r ai, ai + 1)) (T, cost0, ins.base, artIndex)
-    let (T, cost, base, artIndex) := fwdFold oldRows (numRows - oldRows)
-      (fun i (acc : List Row × Row × List Nat × Nat) =>
-        let (T, cost, base, ai) := acc
-        if ins.worked.getD i false then acc
-        else (T.set i ((T.getD i []).set ai 1), cost.set ai (-1), base.set i ai, ai + 1)) (T, cost, base, artIndex)
-    let endA := artIndex
-    -- :955–:956 the sign column
-    let cost := cost.set (numCols - 1) 1
-    -- :959–:969 the cost row in terms of the non-basic variables
-    let cost := revFold numRows (fun i (cost : Row) =>
-      let bi := base.getD i 0
-      if cost.get bi != 0 then linearCombine cost (T.getD i []) bi else cost) cost
-    let s := { s with tableau := T, numCols := numCols, working_cost := cost, base := base, mapping := mapping }
-    -- :972–:999
-    if s.external_space_dim == 0 then
-      .done { s with status := .OPTIMIZED, last_generator := ⟨[], 1⟩ }
-    else if numRows == 0 then
-      if isUnboundedObjFunction s.obj mapping s.maximize then
-        .done { s with status := .UNBOUNDED, last_generator := ⟨zeros s.external_space_dim, 1⟩ }
-      else .done { s with status := .OPTIMIZED, last_generator := ⟨zeros s.external_space_dim, 1⟩ }
-    else .phase1 s beginA endA
+  | some p => ppcBuild s lgBasic p
 
 def LPState.tab (s : LPState) : Tab := ⟨s.tableau, s.working_cost, s.base⟩
 def LPState.withTab (s : LPState) (t : Tab) : LPState :=
@@ -534,9 +567,7 @@ def secondPhase (fc : Chooser) (fuel : Nat) (s : LPState) : Option LPState :=
   if s.status == .UNBOUNDED || s.status == .OPTIMIZED then some s else
     let cost := secondPhaseCost s
     -- :1956–:1966
-    let cost := revFold s.tableau.length (fun i (cost : Row) =>
-      let bi := s.base.getD i 0
-      if cost.get bi != 0 then linearCombine cost (s.tableau.getD i []) bi else cost) cost
+    let cost := reexpressCost s.tableau s.base cost
     match computeSimplexWith (chooserOf fc s.pricing) fuel ⟨s.tableau, cost, s.base⟩ with
     | none => none
     | some (ok, t) =>
